@@ -122,6 +122,8 @@ class RecPlugin:
     def __init__(self, rec, iid_of=None, hostile=None):
         self.r = rec
         self.hostile = hostile  # None or set of hook names that raise via fault plan
+        self.start_sends = None  # events the start hook sends to the (root) interpreter
+        self._start_sent = False
 
     def _h(self, hook):
         if self.hostile is not None and hook in self.hostile:
@@ -131,6 +133,24 @@ class RecPlugin:
         self.r.tick()
         self.r.rec("i-start", interp.id)
         self._h("on_interpreter_start")
+        ss = self.start_sends
+        if ss and getattr(interp, "parent", None) is None and not self._start_sent:
+            # an observer that talks back: the interpreter already reads "running", so these sends are accepted - while
+            # start() is still on its way to the initial configuration, on the thread that runs it
+            self._start_sent = True
+            for e in ss:
+                batch = e.get("events")
+                tags = [x["tag"] for x in batch] if batch else [e["tag"]]
+                self.r.rec("hook-send", interp.id, tuple(tags), interp.status)
+                try:
+                    out = interp.send_events([dict(x) for x in batch]) if batch else interp.send(dict(e))
+                    if hasattr(out, "close"):
+                        out.close()  # a coroutine (async engine): not awaited from a plain hook
+                    self.r.rec("hook-sent", interp.id, tuple(tags), "ok")
+                except SimAbort:
+                    raise
+                except Exception as ex:
+                    self.r.rec("hook-sent", interp.id, tuple(tags), type(ex).__name__)
 
     def on_interpreter_stop(self, interp):
         self.r.tick()
